@@ -827,7 +827,7 @@ class AI:
             if v[0] == "enum" and v[1] == OPTION and v[2] == 0:
                 return [(st, ("enum", OPTION, 0, ()))]
             return None
-        if decl == "std::clone::Clone::clone" and args and not callee.get("local"):
+        if decl == "std::clone::Clone::clone" and args:
             v = self.resolve(st, args[0])
             if v[0] == "ref":
                 inner = self.read_at(st, v[1], v[2])
